@@ -43,7 +43,7 @@ const battery = `
 (list
   (b-loop 50 0)
   (b-even 21)
-  (handler-bind ((outer (lambda (c &rest d) (list 'outer d))))
+  (handler-bind ((inner (lambda (c &rest d) (list 'outer d))))
     (handler-bind ((inner (lambda (c &rest d) (rethrow))))
       (error 'inner 7)))
   (handler-bind ((inner (lambda (c &rest d) (list c d)))) (error 'inner 7 8))
@@ -54,8 +54,9 @@ const battery = `
   (ignore-errors (rethrow))
   (list (ignore-errors v0) (ignore-errors v1) (ignore-errors v2) (ignore-errors v3))
   (progn (set 'b-marker 1) (list b-marker (ignore-errors user:b-marker)))
-  (nest 5 (lambda () 'bottom))
-  (deep 40) (spin 300) (mloop 20))
+  (nest 5 (lambda () 7))
+  (deep 40) (spin 300) (mloop 20)
+  (ignore-errors (ctxfn 5)) (ignore-errors (funcall ctxclosure 2)))
 `
 
 var cfg = vcommon.Cfg{NoStdlib: true, MaxPhysical: 250, MaxNesting: 600, MaxTailIter: 2000, MaxMacroDepth: 50, MaxAlloc: 100000}
@@ -82,7 +83,7 @@ var failKinds = []string{"none", "none", "error", "error-in-handler", "error-in-
 func genHistory() *rapid.Generator[History] {
 	act := rapid.Custom(func(t *rapid.T) Action {
 		a := Action{
-			Entry:  rapid.SampledFrom([]string{"load", "load", "load", "eval", "evalsexpr", "funcall", "specialop", "macrocall", "load-ctx", "eval-ctx", "funcall-ctx", "load-empty"}).Draw(t, "entry"),
+			Entry:  rapid.SampledFrom([]string{"load", "load", "load", "eval", "evalsexpr", "funcall", "specialop", "macrocall", "load-ctx", "eval-ctx", "funcall-ctx", "load-empty", "def-ctx"}).Draw(t, "entry"),
 			PreVar: rapid.IntRange(0, 3).Draw(t, "prevar"),
 			PreVal: rapid.IntRange(0, 99).Draw(t, "preval"),
 			Fail:   rapid.SampledFrom(failKinds).Draw(t, "fail"),
@@ -90,7 +91,9 @@ func genHistory() *rapid.Generator[History] {
 			Wrap:   rapid.SampledFrom([]string{"", "", "let", "handler", "ignore", "macro"}).Draw(t, "wrap"),
 			InPkg:  rapid.IntRange(0, 4).Draw(t, "inpkg") == 0,
 		}
-		if rapid.IntRange(0, 3).Draw(t, "budgeted") == 0 {
+		if rapid.IntRange(0, 3).Draw(t, "budgeted") == 0 && a.Entry != "def-ctx" {
+			// (the two definitions of def-ctx are tracked as one completed
+			// binding, so that load is never cut short by a budget)
 			a.Budget = rapid.IntRange(1, 150).Draw(t, "budget")
 		}
 		return a
@@ -155,6 +158,11 @@ func failForm(kind string) string {
 func (a Action) body() string {
 	inner := failForm(a.Fail)
 	thunk := fmt.Sprintf("(nest %d (lambda () %s))", a.Depth, inner)
+	if a.Depth == 0 && a.PreVal%3 == 0 {
+		// the failing form stands directly in the entry point's own
+		// environment (the root environment for the Load/Eval entries)
+		thunk = inner
+	}
 	switch a.Wrap {
 	case "let":
 		thunk = "(let ([tmp 1]) " + thunk + ")"
@@ -167,6 +175,8 @@ func (a Action) body() string {
 	}
 	return fmt.Sprintf("(gset 'v%d %d) %s (gset 'v%d %d)", a.PreVar, a.PreVal, thunk, (a.PreVar+1)%4, a.PreVal+1000)
 }
+
+const ctxDefs = "(defun ctxfn (x) (if (<= x 0) 0 (+ 1 (ctxfn (- x 1))))) (set 'ctxclosure (let ((k 3)) (lambda (y) (map 'list (lambda (e) (+ e k y)) '(1 2)))))"
 
 func parseOne(src string) (*lisp.LVal, error) {
 	exprs, err := parser.NewReader().Read("action.lisp", strings.NewReader(src))
@@ -194,6 +204,10 @@ func perform(rt *vcommon.Rt, a Action) (*lisp.LVal, string) {
 			src = ""
 		}
 		return env.LoadString("action.lisp", src), "LoadString (no forms): " + fmt.Sprintf("%q", src)
+	case "def-ctx":
+		// definitions made under a context that is cancelled afterwards: the
+		// functions are completed bindings and must stay usable
+		return env.LoadStringContext(ctx, "ctxdef.lisp", ctxDefs), "LoadStringContext: " + ctxDefs
 	case "load-ctx":
 		return env.LoadStringContext(ctx, "action.lisp", body), "LoadStringContext: " + body
 	case "eval-ctx":
@@ -259,16 +273,7 @@ func perform(rt *vcommon.Rt, a Action) (*lisp.LVal, string) {
 
 // describe renders everything the host can observe of one action's outcome.
 //
-// hostLoc is the location the root environment held before the call.  The
-// entry points that take no source expression (FunCall*, SpecialOpCall,
-// MacroCall) have no call expression of their own, so their outermost frame and
-// an error raised before any form is evaluated carry that location; it is
-// masked for them (it belongs to no property), and only for them.
-func describe(rt *vcommon.Rt, a Action, hostLoc string, res *lisp.LVal, tr []vcommon.Event) string {
-	switch a.Entry {
-	case "funcall", "funcall-ctx", "specialop", "macrocall":
-		return describe1(rt, a, true, hostLoc, res, tr)
-	}
+func describe(rt *vcommon.Rt, a Action, res *lisp.LVal, tr []vcommon.Event) string {
 	return describe1(rt, a, false, "", res, tr)
 }
 
@@ -349,6 +354,9 @@ func checkHistory(h History, c *vcommon.Ctx) *vcommon.Failure {
 	failedDeep, followed := false, false
 	var defs []string
 	for i, a := range h.Actions {
+		if a.Entry == "def-ctx" {
+			a.Budget = 0
+		}
 		if failedDeep {
 			followed = true
 		}
@@ -371,19 +379,31 @@ func checkHistory(h History, c *vcommon.Ctx) *vcommon.Failure {
 			}
 		}
 		twinA.Trace = nil
+		// The entry points that take no source expression (FunCall*,
+		// SpecialOpCall, MacroCall) have no call expression of their own: their
+		// outermost frame, and an error raised before any form is evaluated,
+		// carry the location the environment was left at.  Both runtimes are
+		// left at the same one, so that it cannot differ.
+		env.LoadString("host.lisp", "0")
+		twinA.Env.LoadString("host.lisp", "0")
+		mark = len(rt.Trace)
 		if a.Budget > 0 {
 			rt.Apply(vcommon.Cfg{MaxSteps: int64(a.Budget)})
 			twinA.Apply(vcommon.Cfg{MaxSteps: int64(a.Budget)})
 		}
 		rt.Stderr.Reset()
 		twinA.Stderr.Reset()
-		hostLoc, hostLocT := locString(env.Source()), locString(twinA.Env.Source())
 		res, desc := perform(rt, a)
 		resT, _ := perform(twinA, a)
-		gotA := describe(rt, a, hostLoc, res, rt.Trace[mark:])
-		wantA := describe(twinA, a, hostLocT, resT, twinA.Trace)
+		gotA := describe(rt, a, res, rt.Trace[mark:])
+		wantA := describe(twinA, a, resT, twinA.Trace)
 		rt.Apply(vcommon.Cfg{MaxSteps: 0})
-		if a.Entry == "funcall" || a.Entry == "funcall-ctx" {
+		// definitions are completed bindings only if the defining load itself
+		// succeeded (it runs under the action's budget too)
+		if a.Entry == "def-ctx" && res != nil && res.Type != lisp.LError {
+			defs = append(defs, ctxDefs)
+		}
+		if (a.Entry == "funcall" || a.Entry == "funcall-ctx") && !strings.HasPrefix(desc, "(defun act ") {
 			defs = append(defs, "(defun act () "+a.body()+")")
 		}
 		fmt.Fprintf(&log, "#%d %s budget=%d\n", i, desc, a.Budget)
@@ -410,6 +430,14 @@ func checkHistory(h History, c *vcommon.Ctx) *vcommon.Failure {
 			if e.Tag == "gset" {
 				parts := strings.SplitN(e.Payload, " ", 2)
 				done = append(done, mut{parts[0], parts[1]})
+			}
+		}
+		switch a.Entry {
+		case "load", "load-ctx", "eval", "eval-ctx", "evalsexpr", "def-ctx", "load-empty":
+			// these entry points are handed the source: nothing they report may
+			// carry the location the environment was left at beforehand
+			if strings.Contains(gotA, "host.lisp") {
+				return vcommon.Failf("stale-location/"+a.Entry, "action #%d reports a location left over from the PREVIOUS evaluation (host.lisp)\n%s\n%s", i, gotA, log.String())
 			}
 		}
 		if gotA != wantA {
@@ -458,4 +486,14 @@ func TestCheck(t *testing.T) {
 	vcommon.Main(t, "C05",
 		vcommon.S("history", 6000, 200000, genHistory(), checkHistory),
 	)
+}
+
+// TestBatteryRunsToTheEnd guards the harness itself: in a fresh runtime the
+// probe battery must evaluate completely (a battery that fails half-way would
+// compare only its first forms).
+func TestBatteryRunsToTheEnd(t *testing.T) {
+	rt := newRT()
+	if s := runBattery(rt); strings.HasPrefix(s, "ERR") {
+		t.Fatalf("the probe battery does not run to its end in a fresh runtime: %s", s)
+	}
 }
